@@ -3,6 +3,7 @@ package crypto
 import (
 	"context"
 	"crypto/rand"
+	"encoding/binary"
 	"fmt"
 	"github.com/allegro/bigcache/v3"
 	oasisEd25519 "github.com/oasisprotocol/curve25519-voi/primitives/ed25519"
@@ -202,8 +203,12 @@ func (bt *BatchTuple) Key() string {
 	pk := bt.PublicKey.Bytes()
 	// calculate the total length of the key
 	totalLen := len(pk) + len(bt.Message) + len(bt.Signature)
-	// create the buffer and offset variables
-	b, offset := make([]byte, totalLen), 0
+	// create the buffer and offset variables (8 extra bytes frame the parts, see below)
+	b, offset := make([]byte, totalLen+8), 0
+	// frame the three parts: without the lengths (pk, msg||x, sig') and (pk, msg, x||sig')
+	// share a key, so a cached verification would vouch for a message nobody signed
+	binary.BigEndian.PutUint32(b[totalLen:], uint32(len(pk)))
+	binary.BigEndian.PutUint32(b[totalLen+4:], uint32(len(bt.Message)))
 	// copy pubkey in first part
 	copy(b[offset:], pk)
 	offset += len(pk)
